@@ -256,5 +256,5 @@ Lemma alias_increase_res : py_inputs_untouched gen_alias_exhaustion_by_budget_in
 Proof. reflexivity. Qed.
 Lemma alias_increase_irr : py_inputs_untouched gen_alias_exhaustion_by_budget_increase_irr = true.
 Proof. reflexivity. Qed.
-Lemma ctrl_all_translated : gen_ctrl_untranslated = [].
+Lemma ctrl_all_translated : gen_untranslated_exhaustion = [].
 Proof. reflexivity. Qed.
